@@ -2130,26 +2130,105 @@ theorem take_slice (cps : List Nat) (c s : Nat) (h : c ≤ s) :
   rw [show c + (s - c) = s by omega] at this
   exact this.symm
 
+/-! ### where the name of an entity reference is spelled -/
+
+theorem splitBy_head_prefix (l : Bytes) (d : Nat) (name r : Bytes) (rs : List Bytes)
+    (h : splitBy l d = name :: r :: rs) : ∃ tl, l = name ++ d :: tl := by
+  have := splitBy_join l d
+  rw [h] at this
+  exact ⟨List.intercalate [d] (r :: rs), by rw [← this]; simp [List.intercalate, List.intersperse]⟩
+
+theorem refOf_entity_split (b n : Bytes) (f : Morph) (h : Spec.refOf b = some (.entity n f)) :
+    n ≠ [] ∧ ∃ r rs, splitBy ((b.drop 2).dropLast) cBar = n :: r :: rs := by
+  unfold Spec.refOf at h
+  generalize splitBy ((b.drop 2).dropLast) cBar = toks at h ⊢
+  match toks with
+  | [] => simp at h
+  | name :: rest =>
+    simp only at h
+    split at h
+    · cases h
+    · rename_i hlen
+      match name with
+      | [] => simp at h
+      | c :: tl =>
+        simp only at h
+        split at h
+        · split at h
+          · cases h
+          · injection h with h; injection h with h1 h2; subst h1
+            match rest with
+            | [] => simp at hlen
+            | r :: rs => exact ⟨by simp, r, rs, rfl⟩
+        · match rest with
+          | [nominal] =>
+            simp only at h
+            split at h <;> cases h
+          | [] => simp at h
+          | _ :: _ :: _ => simp at h
+
+/-- **refOf_entity_prefix**: the bytes `b` of an entity reference with name `n` are two bytes
+(the `@{` of a candidate), then exactly the bytes of `n` (non-empty), then a `|`, then the rest. -/
+theorem refOf_entity_prefix (b n : Bytes) (f : Morph) (h : Spec.refOf b = some (.entity n f)) :
+    n ≠ [] ∧ ∃ tl, b = b.take 2 ++ n ++ cBar :: tl ∧ (b.take 2).length = 2 := by
+  obtain ⟨hne, r, rs, hs⟩ := refOf_entity_split b n f h
+  obtain ⟨tl, htl⟩ := splitBy_head_prefix _ _ _ _ _ hs
+  refine ⟨hne, ?_⟩
+  have hd : b.drop 2 ≠ [] := by
+    intro e; rw [e] at htl; simp at htl
+  have hsp : b.drop 2 = (b.drop 2).dropLast ++ [(b.drop 2).getLast hd] :=
+    (List.dropLast_concat_getLast hd).symm
+  refine ⟨tl ++ [(b.drop 2).getLast hd], ?_, ?_⟩
+  · conv => lhs; rw [← List.take_append_drop 2 b, hsp, htl]
+    simp
+  · have : 0 < (b.drop 2).length := List.length_pos_iff.2 hd
+    simp at this ⊢; omega
+
+theorem refOf_entity_length (b n : Bytes) (f : Morph) (h : Spec.refOf b = some (.entity n f)) :
+    2 + n.length < b.length := by
+  obtain ⟨_, tl, h1, h2⟩ := refOf_entity_prefix b n f h
+  have := congrArg List.length h1
+  simp only [List.length_append, List.length_cons, h2] at this
+  omega
+
+/-- replacing `k` bytes two bytes after the start of the middle part `O` of `P ++ O ++ W`. -/
+theorem replace_mid (P O W n' : Bytes) (k : Nat) (hk : 2 + k ≤ O.length) :
+    (P ++ (O ++ W)).take (P.length + 2) ++ n' ++ (P ++ (O ++ W)).drop (P.length + 2 + k)
+      = P ++ ((O.take 2 ++ n' ++ O.drop (2 + k)) ++ W) := by
+  have h1 : (P ++ (O ++ W)).take (P.length + 2) = P ++ O.take 2 := by
+    rw [List.take_append, List.take_of_length_le (by omega), List.take_append_of_le_length (by omega)]
+    congr 2; omega
+  have h2 : (P ++ (O ++ W)).drop (P.length + 2 + k) = O.drop (2 + k) ++ W := by
+    rw [Nat.add_assoc, List.drop_append, List.drop_eq_nil_of_le (by omega), Nat.add_sub_cancel_left,
+      List.drop_append_of_le_length hk, List.nil_append]
+  rw [h1, h2]; simp [List.append_assoc]
+
+/-- every entity item of the list spells its name inside its own range (true of the found
+references: `refOf_entity_length`). -/
+def NamesInside (cps : List Nat) (xs : List (Nat × Nat × RefData)) : Prop :=
+  ∀ x ∈ xs, ∀ n f, x.2.2 = .entity n f → 2 + n.length ≤ (encode (Spec.slice cps x.1 x.2.1)).length
+
 open Spec in
 theorem translate_foldr (tr : Bytes → Option Bytes) (cps : List Nat) (hv : ∀ c ∈ cps, validCp c) :
     ∀ (xs : List (Nat × Nat × RefData)) (c : Nat),
-      SortedFrom cps.length c (xs.map (fun x => (x.1, x.2.1))) →
+      SortedFrom cps.length c (xs.map (fun x => (x.1, x.2.1))) → NamesInside cps xs →
       (xs.map rawRef).foldr (fun r acc => translateStep tr acc r) (encode cps) =
         encode (cps.take c) ++ weave cps c (xs.map (translatedItem tr cps)) := by
   intro xs
   induction xs with
   | nil =>
-    intro c _
+    intro c _ _
     simp only [List.map_nil, List.foldr_nil, weave]
     rw [← encode_append, List.take_append_drop]
   | cons x rest ih =>
-    intro c hs
+    intro c hs hin
     obtain ⟨h1, h2, h3, h4⟩ := hs
     simp only at h1 h2 h3 h4
     simp only [List.map_cons, List.foldr_cons, weave]
-    rw [ih x.2.1 h4]
+    rw [ih x.2.1 h4 (fun y hy => hin y (by simp [hy]))]
+    have hx := hin x (by simp)
     obtain ⟨s, e, d⟩ := x
-    simp only at h1 h2 h3 h4 ⊢
+    simp only at h1 h2 h3 h4 hx ⊢
     have hunch : encode (cps.take e) = encode (cps.take c) ++ (encode (slice cps c s) ++ encode (slice cps s e)) := by
       rw [← List.append_assoc, take_slice cps c s h1, take_slice cps s e (by omega)]
     have hve : ∀ y ∈ cps.take e, validCp y := fun y hy => hv y (List.mem_of_mem_take hy)
@@ -2177,8 +2256,9 @@ theorem translate_foldr (tr : Bytes → Option Bytes) (cps : List Nat) (hv : ∀
             rw [← take_slice cps s e (by omega), List.append_assoc]
           rw [hsplit]
           have hA := take_slice cps c s h1
-          trace_state
-          sorry
+          have hlen : 2 + n.length ≤ (encode (slice cps s e)).length := hx n f rfl
+          rw [replace_mid _ _ _ n' n.length hlen, ← hA]
+          simp only [List.append_assoc]
 
 /-! ### resolutions are well-formed UTF-8 when the context's terms are -/
 
@@ -2451,5 +2531,24 @@ theorem resolutionsFrom_mem (ctx : Ctx) (all : List RefData) : ∀ (ds : List Re
     · exact ⟨i, d, by simp, rfl⟩
     · obtain ⟨j, d', hd', e⟩ := ih (i + 1) t ht
       exact ⟨j, d', by simp [hd'], e⟩
+
+/-- a candidate's bytes start with `@{`. -/
+theorem cand_take2 (cps : List Nat) (se : Nat × Nat) (hd : Delimited cps se) :
+    (encode (Spec.slice cps se.1 se.2)).take 2 = [cAt, cOpen] := by
+  obtain ⟨h1, h2, h3, h4, h5⟩ := hd
+  have hlen := slice_length cps se.1 se.2 (by omega) h2
+  have g0 : (Spec.slice cps se.1 se.2)[0]? = some cAt := by
+    rw [getElem?_slice cps _ _ 0 (by omega)]; simpa using h3
+  have g1 : (Spec.slice cps se.1 se.2)[1]? = some cOpen := by
+    rw [getElem?_slice cps _ _ 1 (by omega)]; exact h4
+  match hL : Spec.slice cps se.1 se.2 with
+  | [] => rw [hL] at g0; simp at g0
+  | [_] => rw [hL] at g1; simp at g1
+  | a :: b :: M =>
+    rw [hL] at g0 g1
+    simp only [List.getElem?_cons_zero, Option.some.injEq] at g0
+    simp only [List.getElem?_cons_succ, List.getElem?_cons_zero, Option.some.injEq] at g1
+    subst g0; subst g1
+    simp [encode, encodeCp, cAt, cOpen]
 
 end CCVerif.Refs
